@@ -24,8 +24,8 @@ package protocol
 //     64 KiB + 64 x len(input).
 //
 // Allocation is measured per batch of 64 decode calls between two ReadMemStats; a batch whose
-// total is <= 64 KiB proves every member is; otherwise the batch is halved recursively down to
-// single calls (decoders are pure, re-running them is harmless). TotalAlloc under
+// total is <= 64 KiB proves every member is; otherwise every member is decoded again between
+// its own pair of ReadMemStats (decoders are pure, re-running them is harmless). TotalAlloc under
 // ReadMemStats is exact (it flushes the per-P caches) and the test runs on one goroutine
 // with the collector disabled, so the measurement is deterministic; the bound is two orders
 // of magnitude above what any in-proportion decode needs.
@@ -57,6 +57,7 @@ type c05Replay struct {
 	Input []byte `json:"input,omitempty"` // bytes fed to the decoder (totality, alloc)
 	Split int    `json:"split,omitempty"`
 	Kind  string `json:"kind,omitempty"`
+	Tier  string `json:"tier,omitempty"` // corpus indices depend on the tier
 }
 
 const (
@@ -241,32 +242,43 @@ func (h *c05H) allocOf(lo, hi int, keep bool) uint64 {
 	return h.ms2.TotalAlloc - h.ms1.TotalAlloc
 }
 
-// narrow finds the members of batch[lo:hi] that break their own bound, given the group allocated delta.
+// narrow finds the members of batch[lo:hi] that break their own bound, given what the group allocated.
+// A group total <= 64 KiB clears every member; otherwise every member is measured on its own
+// (a second decode per member; halving would re-run an expensive offender log2(64) times).
 func (h *c05H) narrow(lo, hi int, delta uint64) {
 	if delta <= c05AllocBase {
 		return // every member allocated at most delta
 	}
-	if hi-lo == 1 {
-		it := h.batch[lo]
-		if delta > c05Bound(len(it.in)) {
-			name := h.codecs[it.ci].name
-			site := it.label
-			if site == "" {
-				site = "grid-" + it.kind
-			}
-			in := it.in
-			if len(in) > 96 {
-				in = in[:96]
-			}
-			h.r.Violate("C05/alloc-out-of-proportion/"+name+"/"+site,
-				fmt.Sprintf("Decode%s allocated %d bytes for a %d-byte input %x (bound %d)", name, delta, len(it.in), in, c05Bound(len(it.in))),
-				c05Replay{Part: "alloc", Codec: name, Input: it.in, Kind: it.kind})
+	for i := lo; i < hi; i++ {
+		d := delta
+		if hi-lo > 1 {
+			d = h.allocOf(i, i+1, false)
 		}
-		return
+		it := h.batch[i]
+		if d <= c05Bound(len(it.in)) {
+			continue
+		}
+		// confirm: a genuine disproportionate allocation repeats, a stray allocation by a runtime goroutine does not
+		if d2 := h.allocOf(i, i+1, false); d2 < d {
+			d = d2
+		}
+		if d <= c05Bound(len(it.in)) {
+			continue
+		}
+		name := h.codecs[it.ci].name
+		site := it.label
+		if site == "" {
+			site = "grid-" + it.kind
+		}
+		in := it.in
+		if len(in) > 96 {
+			in = in[:96]
+		}
+		h.r.Add("alloc_offenders", 1)
+		h.r.Violate("C05/alloc-out-of-proportion/"+name+"/"+site,
+			fmt.Sprintf("Decode%s allocated about %.1f MiB for a %d-byte input %x (bound %d bytes)", name, float64(d)/(1<<20), len(it.in), in, c05Bound(len(it.in))),
+			c05Replay{Part: "alloc", Codec: name, Input: it.in, Kind: it.kind})
 	}
-	mid := (lo + hi) / 2
-	h.narrow(lo, mid, h.allocOf(lo, mid, false))
-	h.narrow(mid, hi, h.allocOf(mid, hi, false))
 }
 
 func (h *c05H) push(it c05Item) {
@@ -378,21 +390,21 @@ func (h *c05H) roundTrip(ci, idx int, m any) {
 	r.Add("roundtrips", 1)
 	var y []byte
 	if pv := c05Try(func() { y = c.enc(m) }); pv != nil {
-		r.Violate("C05/encode-panic/"+c.name, fmt.Sprintf("encoding corpus message #%d of %s panicked: %v", idx, c.name, pv), c05Replay{Part: "roundtrip", Codec: c.name, Seed: idx})
+		r.Violate("C05/encode-panic/"+c.name, fmt.Sprintf("encoding corpus message #%d of %s panicked: %v", idx, c.name, pv), c05Replay{Part: "roundtrip", Codec: c.name, Seed: idx, Tier: r.Tier})
 		return
 	}
 	var m2 any
 	var err error
 	if pv := c05Try(func() { m2, err = c.dec(y) }); pv != nil {
-		r.Violate("C05/decode-panic/"+c.name, fmt.Sprintf("Decode%s panicked (%v) on the encoding of corpus message #%d", c.name, pv, idx), c05Replay{Part: "roundtrip", Codec: c.name, Seed: idx})
+		r.Violate("C05/decode-panic/"+c.name, fmt.Sprintf("Decode%s panicked (%v) on the encoding of corpus message #%d", c.name, pv, idx), c05Replay{Part: "roundtrip", Codec: c.name, Seed: idx, Tier: r.Tier})
 		return
 	}
 	if err != nil {
-		r.Violate("C05/roundtrip-rejected/"+c.name, fmt.Sprintf("Decode%s rejects the encoding (%d bytes) of in-limits corpus message #%d: %v", c.name, len(y), idx, err), c05Replay{Part: "roundtrip", Codec: c.name, Seed: idx})
+		r.Violate("C05/roundtrip-rejected/"+c.name, fmt.Sprintf("Decode%s rejects the encoding (%d bytes) of in-limits corpus message #%d: %v", c.name, len(y), idx, err), c05Replay{Part: "roundtrip", Codec: c.name, Seed: idx, Tier: r.Tier})
 		return
 	}
 	if d := c05Equiv(m, m2); d != "" {
-		r.Violate("C05/roundtrip-mismatch/"+c.name+"/"+c05Top(d), fmt.Sprintf("%s corpus message #%d %s: encode->decode changes %s", c.name, idx, c05Describe(m), d), c05Replay{Part: "roundtrip", Codec: c.name, Seed: idx})
+		r.Violate("C05/roundtrip-mismatch/"+c.name+"/"+c05Top(d), fmt.Sprintf("%s corpus message #%d %s: encode->decode changes %s", c.name, idx, c05Describe(m), d), c05Replay{Part: "roundtrip", Codec: c.name, Seed: idx, Tier: r.Tier})
 		return
 	}
 	r.Nontrivial(c.name + "|roundtrip")
@@ -545,8 +557,8 @@ func TestVerif_C05(t *testing.T) {
 		switch rp.Part {
 		case "roundtrip":
 			ci := byName[rp.Codec]
-			ms := h.codecs[ci].msgs(true)
-			if rp.Seed < len(ms) {
+			ms := h.codecs[ci].msgs(rp.Tier == "thorough")
+			if rp.Seed >= 0 && rp.Seed < len(ms) {
 				h.roundTrip(ci, rp.Seed, ms[rp.Seed])
 			}
 		case "stream":
@@ -585,7 +597,9 @@ func TestVerif_C05(t *testing.T) {
 	// (a) round trips
 	for ci := range h.codecs {
 		ms := h.codecs[ci].msgs(thorough)
-		r.Add("corpus_messages", int64(len(ms)))
+		if r.Shard == 0 {
+			r.Add("corpus_messages", int64(len(ms)))
+		}
 		for idx, m := range ms {
 			if !mine() {
 				continue
@@ -614,7 +628,9 @@ func TestVerif_C05(t *testing.T) {
 			seedCodec = append(seedCodec, ci)
 		}
 	}
-	r.Add("seed_encodings", int64(len(seedEncs)))
+	if r.Shard == 0 {
+		r.Add("seed_encodings", int64(len(seedEncs)))
+	}
 	for si, e := range seedEncs {
 		if !mine() {
 			continue
